@@ -659,7 +659,13 @@ class BasePlaceholderManager(MpfController):
             self._eval_methods[ast.Constant] = self._eval_constant
 
     def _eval_tuple(self, node, variables, subscribe):
-        return tuple([self._eval(x, variables, subscribe) for x in node.elts])
+        values = []
+        subscriptions = []
+        for element in node.elts:
+            value, subscription = self._eval(element, variables, subscribe)
+            values.append(value)
+            subscriptions = subscriptions + subscription
+        return tuple(values), subscriptions
 
     @staticmethod
     def _parse_template(template_str):
